@@ -196,10 +196,12 @@ Access(ref, acc, i, env) ==
   ELSE IF ref.t = "list" THEN
        CASE kind = "idx" -> IF idx < 0 THEN Unspec
                             ELSE Access(IF idx < Len(ref.v) THEN ref.v[idx + 1] ELSE Undef, acc, i + 1, env)
-         [] OTHER -> Unspec                                  \* a list accessed by name: no claim
+         [] kind = "key" -> NoVal                            \* a list accessed by name: no value
+         [] OTHER -> Unspec
   ELSE IF ref.t = "map" THEN
        CASE kind = "key" -> IF key = "" THEN Unspec
                             ELSE Access(IF key \in DOMAIN ref.v THEN ref.v[key] ELSE Undef, acc, i + 1, env)
+         [] kind = "idx" -> NoVal                            \* a map (string keys) accessed by number: no value
          [] OTHER -> Unspec
   ELSE Err                                                  \* not a collection
 
@@ -216,7 +218,7 @@ Eval(e, env) ==
     [] e.k = "map" ->
          LET xs == [i \in 1..Len(e.items) |-> Eval(e.items[i].val, env)] IN
          IF \E i, j \in 1..Len(e.items) : i # j /\ e.items[i].key = e.items[j].key THEN Unspec
-         ELSE IF \E i \in 1..Len(xs) : xs[i].t = "unspec" THEN Unspec   \* evaluation order unspecified
+         ELSE IF \E i \in 1..Len(xs) : xs[i].t \in {"unspec", "noval"} THEN Unspec   \* evaluation order unspecified
          ELSE IF \E i \in 1..Len(xs) : xs[i].t = "err" THEN Err
          ELSE M([k \in {e.items[i].key : i \in 1..Len(e.items)} |->
                    xs[CHOOSE i \in 1..Len(e.items) : e.items[i].key = k]])
@@ -287,7 +289,9 @@ Eval(e, env) ==
 (***************************************************************************)
 PrintOutcome(e, env) ==
   LET v == Eval(e, env) IN
-  IF IsBad(v) THEN v
+  \* "no value" is judged only when the printed expression IS the data reference
+  IF v.t = "noval" THEN (IF e.k = "var" THEN v ELSE Unspec)
+  ELSE IF IsBad(v) THEN v
   ELSE IF v.t = "undef" THEN Err
   ELSE IF ~Printable(v) THEN Unspec
   ELSE [t |-> "out", s |-> ToText(v)]
